@@ -447,3 +447,45 @@ Proof.
     + left. exists p. repeat split; reflexivity.
     + right. right. exists w, r. destruct (e_write e w r); [congruence|discriminate H0|reflexivity].
 Qed.
+
+(* where the diagnostic lands: "Error: .." always on standard error; error!(..) wherever the logger
+   writes (standard error, or the --log-file), unless --verbose=off silences the logger *)
+Definition diag_visible (f : flags) (tr : list event) : Prop :=
+  In (Diag Stderr) tr \/ (In (Diag Logger) tr /\ f_verbose_off f = false).
+
+Lemma failure_diag_visible : forall f e, f_verbose_off f = false -> f_help_md f = false ->
+  snd (run f e) <> 0 -> diag_visible f (fst (run f e)).
+Proof.
+  intros f e Hv Hh Hne. pose proof (failure_has_diag f e Hh Hne) as H.
+  apply existsb_exists in H. destruct H as [ev [Hin Hd]]. destruct ev; try discriminate Hd.
+  destruct c; [right; split; assumption|left; assumption].
+Qed.
+
+(* the logger's diagnostics are written after the log file was opened successfully *)
+Lemma do_creates_head : forall e p ps k ev, In ev (fst (do_creates e (p :: ps) k)) ->
+  ev = Diag Stderr \/ In (Create p) (fst (do_creates e (p :: ps) k)).
+Proof.
+  intros e p ps k ev. cbn [do_creates]. destruct (e_create e p); cbn [io_exit fst].
+  - destruct (do_creates e ps k) as [tr c]. intros _. right. left. reflexivity.
+  - intros [H|[]]. left. symmetry. exact H.
+  - intros [].
+Qed.
+
+Lemma logger_diag_after_log_open : forall f e lp, f_log_file f = Some lp ->
+  In (Diag Logger) (fst (run f e)) -> In (Create lp) (fst (run f e)).
+Proof.
+  intros f e lp Hl Hin. rewrite run_shape in *. rewrite Hl in *. cbn [opt_list] in *.
+  destruct (decide f) as [[]| |p];
+    try (destruct (do_creates_head _ _ _ _ _ Hin) as [H|H]; [discriminate H|exact H]).
+  destruct Hin as [H|[]]. discriminate H.
+Qed.
+
+Lemma silent_failure_witness : exists f e,
+  f_verbose_off f = true /\ f_help_md f = false /\ snd (run f e) = 1 /\ ~ diag_visible f (fst (run f e)).
+Proof.
+  exists {| f_human := false; f_json := false; f_cyborg := None; f_dump := false; f_help_md := false;
+            f_pretty := false; f_brief := false; f_features := StableBasic; f_recover := false;
+            f_output_file := None; f_log_file := None; f_verbose_off := true |}.
+  exists {| e_create := fun _ => IoOk; e_read := false; e_process := true; e_write := fun _ _ => IoOk |}.
+  repeat split. intros [H|[_ H]]; [destruct H as [H|[]]; discriminate H|discriminate H].
+Qed.
